@@ -380,6 +380,9 @@ func Leaves(v reflect.Value) []reflect.Value {
 		if t.Type == TMsgType || t.Type == TSOM {
 			continue
 		}
+		if t.Tag.Get("uhppote") == "" {
+			continue // a field without a codec tag is not part of the message
+		}
 		out = append(out, f)
 	}
 	return out
